@@ -148,3 +148,83 @@ package scheduler
 //@   props C04
 //@   requires nodes_wf(g)
 //@   ensures [C04 spec_status] s == spec_status(sc.canceled == 1, all_done_ok(g), g.startedAt != 0, any_running(g), sc.lastError != nil)
+
+// ---------------------------------------------------------------------------------------------
+// The scheduling loop (role L) — sequential contracts; the rely/guarantee variant is further below.
+
+//@ ghost launch map[*Node]int      // how many worker activations were spawned for a node
+//@ ghost hruns int                 // number of handler executions so far
+//@ ghost hlog map[int]*Node        // the handler node of the k-th handler execution
+
+//@ sfunc handler_for(s Status) dag.HandlerType =
+//@      ite(s == StatusSuccess, dag.HandlerOnSuccess,
+//@      ite(s == StatusError, dag.HandlerOnFailure,
+//@      ite(s == StatusCancel, dag.HandlerOnCancel, dag.HandlerOnExit)))
+//@ sfunc outcome(sc *Scheduler, g *ExecutionGraph) Status =
+//@      spec_status(sc.canceled == 1, all_done_ok(g), g.startedAt != 0, any_running(g), sc.lastError != nil)
+
+//@ fn (*ExecutionGraph).Start(g)
+//@   props C04
+//@   modifies g.startedAt
+//@   ensures g.startedAt != 0
+
+//@ fn (*ExecutionGraph).Finish(g)
+//@   props C04
+//@   modifies g.finishedAt
+
+//@ fn (*Scheduler).setup(sc, ctx) (err)
+//@   props C04
+//@   trusted
+//@   modifies sc.handlers, heap(map(dag.HandlerType, *Node)), heap(alloc), ghost eff.env, ghost eff.fs
+
+//@ fn (*Scheduler).runHandlerNode(sc, ctx, node) (err)
+//@   props C04
+//@   trusted
+//@   modifies node.data.State, node.data.Step, ghost hruns, ghost hlog, ghost eff.exec, ghost eff.fs, ghost eff.env
+//@   ensures err == nil
+//@   ensures hruns == old(hruns) + 1 && hlog == upd(old(hlog), old(hruns), node)
+
+// The worker goroutine: thread precondition and the ghost effect of spawning it.
+//@ fn (*Scheduler).Schedule$1(node)
+//@   props C01 C02 C03
+//@   trusted
+//@   requires [flipped_before_spawn] node.data.State.Status != NodeStatusNone
+//@   spawn modifies ghost launch
+//@   spawn ensures launch == upd(old(launch), node, old(launch[node]) + 1)
+
+//@ fn (*Scheduler).Schedule(sc, ctx, g, done) (err)
+//@   props C01 C02 C03 C04 C05 C11 C15
+//@   requires nodes_wf(g) && graph_wf(g)
+//@   requires forall i int :: 0 <= i && i < len(g.nodes) ==> has(g.dict, g.nodes[i].id)
+//@   modifies *
+//@   expect calls go (*Scheduler).Schedule$1 >= 1
+//@   expect calls isReady >= 1
+//@   assert before go [C01 deps_ok_at_launch]
+//@        forall j int :: 0 <= j && j < len(g.to[arg0.id]) ==> dep_ok(g.dict[g.to[arg0.id][j]])
+//@   assert before go [C03 running_before_spawn] arg0.data.State.Status == NodeStatusRunning
+//@   assert before (*Node).setStatus#1 [C03 launched_from_none] arg0.data.State.Status == NodeStatusNone && arg1 == NodeStatusRunning
+//@   assert before (*Node).setStatus#1 [C15 below_limit]
+//@        sc.maxActiveRuns > 0 ==> count_running(g, len(g.nodes)) < sc.maxActiveRuns
+//@   assert before go [C05 not_canceled_at_launch] sc.canceled != 1
+//@   assert before go [C01 launches_graph_node] arg0 == g.nodes[idx + 1]
+//@   loop 1 step [C02 precondition_failure_skips]
+//@        eff.condfail != iter(eff.condfail) ==>
+//@           (g.nodes[idx].data.State.Status == NodeStatusSkipped && launch == iter(launch))
+//@   loop 1 step [C03 at_most_one_launch_per_visit]
+//@        launch == iter(launch) ||
+//@        (launch == upd(iter(launch), g.nodes[idx], iter(launch[g.nodes[idx]]) + 1) &&
+//@         iter(g.nodes[idx].data.State.Status) == NodeStatusNone)
+//@   loop 1 step [C02 only_none_nodes_are_marked]
+//@        forall i int :: 0 <= i && i < len(g.nodes) ==>
+//@           (g.nodes[i].data.State.Status == iter(g.nodes[i].data.State.Status) ||
+//@            (g.nodes[i] == g.nodes[idx] && iter(g.nodes[i].data.State.Status) == NodeStatusNone))
+//@   assert before (*Scheduler).runHandlerNode [C04 handlers_after_wait] eff.waited > old(eff.waited)
+//@   assert before (*Scheduler).runHandlerNode [C04 handler_is_configured] arg2 != nil && arg2 == sc.handlers[h] && h == handlers[idx + 1]
+//@   assert before (*Scheduler).runHandlerNode [C11 handler_gets_outputs] arg2.data.Step.OutputVariables == g.outputVariables
+//@   loop 2 invariant [C04 handler_list_shape]
+//@        (len(handlers) == 1 || len(handlers) == 2) && handlers[len(handlers) - 1] == dag.HandlerOnExit &&
+//@        (len(handlers) == 2 ==> handlers[0] != dag.HandlerOnExit)
+//@   loop 2 invariant [C04 handler_matches_outcome]
+//@        idx == -1 ==> ((len(handlers) == 2 ==> handlers[0] == handler_for(outcome(sc, g))) &&
+//@                       (len(handlers) == 1 ==> (outcome(sc, g) == StatusNone || outcome(sc, g) == StatusRunning)))
+//@   loop 2 invariant [C04 handlers_run_in_order] hruns <= old(hruns) + idx + 1
